@@ -166,6 +166,12 @@ def _eq(a, b):
         return False
 
 
+def _plain(v):
+    if isinstance(v, tuple):
+        return tuple(float(x) for x in v)
+    return float(v)
+
+
 def _impl_real(case):
     from gemdat.jumps import Jumps
     from gemdat.metrics import TrajectoryMetrics
@@ -229,6 +235,26 @@ def _impl_real(case):
                 first[idx] = (got[1], copy.deepcopy(got[1]))
         del got, want
     del first
+    # objects derived from one parent (selections, slices) may share sub-objects with it (pymatgen hands the metadata dict on by reference):
+    # what is computed for one must not show up in the results of another -- compare each with an independently built equal trajectory
+    import copy as _copy
+    rr = np.random.default_rng(case['seed'] + 7)
+    T2 = 60
+    li = np.cumsum(rr.normal(0, 0.02, size=(T2, 2, 3)), axis=0) + 0.2
+    na = np.cumsum(rr.normal(0, 0.002, size=(T2, 2, 3)), axis=0) + 0.6 + 0.01 * np.sin(np.arange(T2) / 7.0)[:, None, None]
+    parent = synth.make_traj(m, ['Li', 'Li', 'Na', 'Na'], np.concatenate([li, na], axis=1), mode='asis')
+    derived = [('filter(Li)', parent.filter('Li')), ('filter(Na)', parent.filter('Na')), ('slice[:30]', parent[:30]), ('whole', parent)]
+    order2 = list(range(len(derived)))
+    rr.shuffle(order2)
+    for k in order2:
+        name, dobj = derived[k]
+        indep = synth.make_traj(m, [str(sp) for sp in dobj.species], np.array(_copy.deepcopy(dobj).positions), mode='asis')
+        a, b = TrajectoryMetrics(dobj), TrajectoryMetrics(indep)
+        for meth, kw in (('attempt_frequency', {}), ('vibration_amplitude', {}), ('tracer_diffusivity', {'dimensions': 3}), ('particle_density', {})):
+            checked += 1
+            if not _eq(_plain(getattr(a, meth)(**kw)), _plain(getattr(b, meth)(**kw))):
+                problems.append(f'TrajectoryMetrics.{meth} of {name} (derived from a parent whose other derivatives were analysed before) differs from the same '
+                                f'analysis of an independently built equal trajectory')
     # liveness, attributed per cached method: fresh object, one cached call, drop, collect
     from gemdat.transitions import Transitions
     traj, tr, j, mt = objs[0]
